@@ -80,7 +80,8 @@ fn split_case(text: &[u8], pattern: &[u8]) {
 }
 
 // @props C15 C06 C13
-// @fns Split::new, Split::next, Split::size_hint (string.split with a string pattern)
+// @tier thorough
+// @fns Split::new, Split::next, Split::size_hint (string.split with a string pattern) - str::find(&str) is std's two-way searcher: did not finish in 1500 s even for a 3-byte input and a 1-byte pattern; kept as a thorough rung
 // @bound input of 3 symbolic bytes over {a, comma, LF, CR}; pattern ","; 5 pulls (more than the 4 pieces possible), size_hint queried before every pull and after the end
 // @timeout 1500
 // @mem 12
@@ -159,6 +160,7 @@ fn c15_string_lines() {
 }
 
 // @props C15 C06 C13
+// @tier thorough
 // @fns Bytes::next, Bytes::size_hint, CharIndices::next, CharIndices::size_hint (string.bytes, string.char_indices, and through them string.chars)
 // @bound text "c U+00E9 c" / "c U+0301 c" with c symbolic over {a, comma, LF, CR} (4 bytes): bytes in order; char_indices yields ranges that tile the string at grapheme boundaries (so joining the characters reproduces the string)
 // @timeout 1500
